@@ -774,4 +774,44 @@ theorem old_scan_skips_ffff :
 
 end BoyerMoore
 
+/-! ## two more modes end to end: C04 ⇒ fact ⇒ finder sound, for the specification's attempt -/
+
+section LoopFactsChain
+open RegexVerif.LoopFacts
+
+/-- **The chain for `RequiredLandmarkChain_LeftToRight`**: for a pattern from which Lean computes a landmark
+    chain (`C04.landmarkChain_sound`), the chain finder run on that chain is a sound candidate finder for the
+    specification's attempt — no hypothesis about the input or the matches is left.  Leg L checks per
+    explored pattern that the chain the engine publishes IS that chain (up to dropped later landmarks, for
+    which `C04.published_landmarkChain_sound` gives the fact). -/
+theorem spec_landmarkChain_finder_sound (e : Spec.Env) (k : Nat) (p : Spec.Pat) (sc : SymChain)
+    (h : chainOf k p = some sc) :
+    FinderSound false e.n (finderLandmarkChain (sc.toLm e) e.text (Facts.minLen p)) (specAttempt e p false) := by
+  obtain ⟨l, ls, hl, hF⟩ := C04.landmarkChain_sound e k p sc h
+  exact finder_landmarkChain_sound (sc.toLm e) (sc.loop.test e) (l.map (SymAlt.toLm e)) (Lemmas.LoopFacts.lmOf e ls)
+    e.text (Facts.minLen p) (specAttempt e p false) rfl
+    (by simp [SymChain.toLm, hl, Lemmas.LoopFacts.lmOf]) hF (C04.minLenSound_spec e p false)
+
+example : ∃ sc, chainOf 4 C04.lmPat = some sc ∧
+    finderLandmarkChain (sc.toLm C04.lmEnv) C04.lmEnv.text (Facts.minLen C04.lmPat) 0 = (true, 0) ∧
+    finderLandmarkChain (sc.toLm C04.lmEnv) C04.lmEnv.text (Facts.minLen C04.lmPat) 2 = (true, 2) ∧
+    finderLandmarkChain (sc.toLm C04.lmEnv) C04.lmEnv.text (Facts.minLen C04.lmPat) 3 = (false, 6) :=
+  ⟨_, rfl, by decide⟩
+
+/-- **The chain for `LiteralAfterLoop_LeftToRight`**: a published record whose loop set contains the loop's
+    test and whose literal includes the character tests Lean computes (`C04.LalIncluded`, what leg L
+    checks) makes `findLiteralAfterLoopLeftToRight` a sound candidate finder for the specification's
+    attempt. -/
+theorem spec_literalAfterLoop_finder_sound (e : Spec.Env) (k : Nat) (p : Spec.Pat) (sl : SymLal)
+    (h : lalOf k p = some sl) (lower : Nat → Nat) (l : LitAfterLoop) (S : Nat → Bool) (hset : l.loopSet = some S)
+    (hS : ∀ r, sl.loop.test e r = true → S r = true) (hinc : C04.LalIncluded e lower l sl.lit) :
+    FinderSound false e.n (finderLiteralAfterLoop lower l e.text (Facts.minLen p)) (specAttempt e p false) :=
+  finder_literalAfterLoop_sound lower l S e.text (Facts.minLen p) (specAttempt e p false) hset
+    (C04.published_literalAfterLoop_sound e k p sl h lower l S hS hinc) (C04.minLenSound_spec e p false)
+
+example : finderLiteralAfterLoop id { str := [97, 98], loopSet := some (fun c => c == 120 || c == 121) }
+    [120, 121, 97, 98, 99] 3 0 = (true, 0) := by decide
+
+end LoopFactsChain
+
 end RegexVerif.Props.C03
